@@ -2,6 +2,7 @@ package c03
 
 import (
 	_ "embed"
+	"fmt"
 	"strings"
 )
 
@@ -73,18 +74,120 @@ var positions = []pos{
 	{"jsonscript_then_js", "@templ.JSONScript(\"id\", v)\n<div data-j={ templ.JSONString(v) }></div>", []string{"json", "jsonattr"}, []string{`[[$V]]`, `[[$V]]`}},
 	{"bare_then_js", `<script>sink({{ v }})</script><div data-j={ templ.JSONString(v) }></div>`, []string{"bare", "jsonattr"}, []string{`[[$V]]`, `[[$V]]`}},
 	{"js_sandwich", "@templ.JSFuncCall(\"sink\", 1, v)\n<div data-j={ templ.JSONString(v) }></div>\n@templ.JSFuncCall(\"sink\", 2, v)\n<div data-j={ templ.JSONString(v) }></div>\n@c03scr(v)", []string{"bare", "jsonattr", "bare", "jsonattr", "bare"}, []string{`[[1,$V]]`, `[[$V]]`, `[[2,$V]]`, `[[$V]]`, `[[$V]]`}},
+	// --- adjacent interpolations: the value is ONE string cut into the pieces a, b (, c); the
+	// literal must hold the whole string (an escaper that looks ahead cannot see past its piece)
+	{"split2_all", "<script>sink('{{ a }}{{ b }}', \"{{ a }}{{ b }}\", `{{ a }}{{ b }}`, {{ a }}+{{ b }});</script><p>after</p>", []string{"sq", "dq", "bt", "bare", "bare"}, []string{`[[$L,$L,$L,$J]]`}},
+	{"split3_all", "<script>sink('{{ a }}{{ b }}{{ c }}', \"{{ a }}{{ b }}{{ c }}\", `{{ a }}{{ b }}{{ c }}`);</script><p>after</p>", []string{"sq", "dq", "bt"}, []string{`[[$L,$L,$L]]`}},
+	{"split_sq2", `<script>sink('{{ a }}{{ b }}');</script><p>after</p>`, []string{"sq"}, []string{`[[$L]]`}},
+	{"split_dq2", `<script>sink("{{ a }}{{ b }}");</script><p>after</p>`, []string{"dq"}, []string{`[[$L]]`}},
+	{"split_bt2", "<script>sink(`{{ a }}{{ b }}`);</script><p>after</p>", []string{"bt"}, []string{`[[$L]]`}},
+	{"split_bare2", `<script>sink({{ a }}+{{ b }});</script><p>after</p>`, []string{"bare", "bare"}, []string{`[[$J]]`}},
+	{"split_sq3", `<script>sink('{{ a }}{{ b }}{{ c }}');</script><p>after</p>`, []string{"sq"}, []string{`[[$L]]`}},
+	{"split_dq3", `<script>sink("{{ a }}{{ b }}{{ c }}");</script><p>after</p>`, []string{"dq"}, []string{`[[$L]]`}},
+	{"split_bt3", "<script>sink(`{{ a }}{{ b }}{{ c }}`);</script><p>after</p>", []string{"bt"}, []string{`[[$L]]`}},
+	// --- static text directly before / after the value that would complete a dangerous sequence with it
+	{"adj_bt_brace_after", "<script>sink(`{{ v }}{x}`, `{{ v }}{`);</script><p>after</p>", []string{"bt", "bt"}, []string{`[["$S{x}","$S{"]]`}},
+	{"adj_bt_dollar_before", "<script>sink(`Total: ${{ v }}`, `$${{ v }}`);</script><p>after</p>", []string{"bt", "bt"}, []string{`[["Total: $$S","$$$S"]]`}},
+	{"adj_sq", `<script>sink('a\\{{ v }}', '<{{ v }}', '<!-{{ v }}', '{{ v }}/script>', '{{ v }}!-- x', '</{{ v }}');</script><p>after</p>`, []string{"sq", "sq", "sq", "sq", "sq", "sq"}, []string{`[["a\\$S","<$S","<!-$S","$S/script>","$S!-- x","</$S"]]`}},
+	{"adj_dq", `<script>sink("a\\{{ v }}", "<{{ v }}", "<!-{{ v }}", "{{ v }}/script>", "{{ v }}!-- x", "</{{ v }}");</script><p>after</p>`, []string{"dq", "dq", "dq", "dq", "dq", "dq"}, []string{`[["a\\$S","<$S","<!-$S","$S/script>","$S!-- x","</$S"]]`}},
+	{"adj_bt", "<script>sink(`a\\\\{{ v }}`, `<{{ v }}`, `<!-{{ v }}`, `{{ v }}/script>`, `{{ v }}!-- x`, `</{{ v }}`);</script><p>after</p>", []string{"bt", "bt", "bt", "bt", "bt", "bt"}, []string{`[["a\\$S","<$S","<!-$S","$S/script>","$S!-- x","</$S"]]`}},
+	// --- JavaScript line continuations and multi-line template literals before the expression
+	// (each also compiled from a CRLF file, see crlfVariants)
+	{"lc_sq", "<script>sink('first \\\nsecond {{ v }}', {{ v }});</script><p>after</p>", []string{"sq", "bare"}, []string{`[["first second $S",$V]]`}},
+	{"lc_dq", "<script>sink(\"first \\\nsecond \\\nthird {{ v }}\", {{ v }});</script><p>after</p>", []string{"dq", "bare"}, []string{`[["first second third $S",$V]]`}},
+	{"lc_sq_parity", "<script>sink('first \\\nsecond {{ v }}'); // it's done\n</script><p>after</p>", []string{"sq"}, []string{`[["first second $S"]]`}},
+	{"lc_dq_parity", "<script>sink(\"first \\\nsecond {{ v }}\"); /* say \"hi */\n</script><p>after</p>", []string{"dq"}, []string{`[["first second $S"]]`}},
+	{"ml_bt", "<script>sink(`line1\nline2 {{ v }}\nline3`, {{ v }});</script><p>after</p>", []string{"bt", "bare"}, []string{`[["line1\nline2 $S\nline3",$V]]`}},
+	{"scriptw_component", "@c03scrw(v)\n<p>after</p>", []string{"bare"}, []string{`[[$V]]`}},
 	// function name of JSFuncCall (strings only; lexical oracle, see fnNameFault)
 	{"funccall_name_component", "@templ.JSFuncCall(fnName(v), 1)\n<p>after</p>", []string{"fn"}, nil},
 	{"funccall_name_attr", `<button onclick={ templ.JSFuncCall(fnName(v), 1) }>x</button>`, []string{"fn"}, nil},
+}
+
+// pieces: positions whose component takes the pieces of one cut string.
+func nPieces(name string) int {
+	switch {
+	case !strings.HasPrefix(name, "split"):
+		return 0
+	case strings.HasPrefix(name, "split3") || strings.HasSuffix(name, "3"):
+		return 3
+	}
+	return 2
+}
+
+// crlfFile: positions whose .templ file is written with CRLF line endings.
+func crlfFile(name string) bool {
+	return strings.HasSuffix(name, "_crlf") || name == "scriptw_component"
+}
+
+// crlfVariants: the positions that are compiled a second time from a file with
+// CRLF line endings (name + "_crlf"): every literal / quote-state position and
+// every position with a line break inside its script element.
+func crlfVariants() []pos {
+	var out []pos
+	for _, p := range positions {
+		inScript := strings.Contains(p.Body, "<script") && strings.Contains(p.Body, "\n")
+		if inScript || strings.HasPrefix(p.Name, "qs_") || p.Name == "sq" || p.Name == "dq" || p.Name == "bt" || p.Name == "quote_state" {
+			q := p
+			q.Name += "_crlf"
+			out = append(out, q)
+		}
+	}
+	return out
+}
+
+// crlfList is computed from the LF positions only (before they are appended).
+var crlfList = crlfVariants()
+
+func init() {
+	positions = append(positions, crlfList...)
+	for _, p := range crlfList {
+		basePositions[p.Name] = []string{strings.TrimSuffix(p.Name, "_crlf")} // a CRLF spelling reduces to its LF original
+	}
+}
+
+// rate is the sampling class of a position: 1 = every value; 4 = composite
+// positions (same encoders as an elementary position, different static context):
+// vectors, shaped vectors, non-strings and every 4th other value (API
+// combinations: every 8th); 8 / 16 = CRLF
+// spellings with / without a line break inside the script element: vectors and
+// every 8th / 16th other value. Split positions: the combined ones take every cut
+// string, the elementary ones (used to name a failure) the vector-derived cuts.
+func rate(name string) int {
+	_, composite := basePositions[name]
+	switch {
+	case nPieces(name) > 0 && strings.HasSuffix(name, "_all"):
+		return 1
+	case nPieces(name) > 0:
+		return 16
+	case strings.HasSuffix(name, "_crlf") && strings.Contains(positions[posIndex(name)].Body, "\n") && strings.Contains(positions[posIndex(name)].Body, "<script"):
+		return 8
+	case strings.HasSuffix(name, "_crlf"):
+		return 16
+	case strings.HasPrefix(name, "js_") || strings.HasSuffix(name, "_then_js"):
+		return 8 // API combinations: the encoders are those of the elementary positions
+	case composite:
+		return 4
+	}
+	return 1
 }
 
 // templFiles prints the corpus package: the shared script templates plus one
 // file per position, so that a template the parser mis-reads cannot swallow the
 // others.
 func templFiles() map[string]string {
-	fs := map[string]string{"scripts.templ": "package main\n\nscript c03scr(v any) {\n\tsink(v);\n}\n\nscript c03scr3(a any, b string, c any) {\n\tsink(a, b, c);\n}\n"}
+	fs := map[string]string{"scripts.templ": "package main\n\nscript c03scr(v any) {\n\tsink(v);\n}\n\nscript c03scr3(a any, b string, c any) {\n\tsink(a, b, c);\n}\n",
+		"scriptsw.templ": strings.ReplaceAll("package main\n\nscript c03scrw(v any) {\n\tsink(v);\n}\n", "\n", "\r\n")}
 	for _, p := range positions {
-		fs["p_"+p.Name+".templ"] = "package main\n\ntempl P_" + p.Name + "(v any) {\n\t" + p.Body + "\n}\n"
+		params := "v any"
+		if n := nPieces(p.Name); n > 0 {
+			params = []string{"a any, b any", "a any, b any, c any"}[n-2]
+		}
+		src := "package main\n\ntempl P_" + p.Name + "(" + params + ") {\n\t" + p.Body + "\n}\n"
+		if crlfFile(p.Name) {
+			src = strings.ReplaceAll(src, "\n", "\r\n")
+		}
+		fs["p_"+p.Name+".templ"] = src
 	}
 	return fs
 }
@@ -112,15 +215,23 @@ import (
 )
 
 var registry = []struct {
-	name string
-	f    func(any) templ.Component
+	name   string
+	pieces int
+	rate   int
+	f      func(Spec) templ.Component
 }{
 `)
 	for _, p := range positions {
-		if available[p.Name] {
-			sb.WriteString("\t{\"" + p.Name + "\", P_" + p.Name + "},\n")
-		} else {
-			sb.WriteString("\t{\"" + p.Name + "\", nil},\n")
+		n, r := nPieces(p.Name), rate(p.Name)
+		switch {
+		case !available[p.Name]:
+			sb.WriteString(fmt.Sprintf("\t{%q, %d, %d, nil},\n", p.Name, n, r))
+		case n == 0:
+			sb.WriteString(fmt.Sprintf("\t{%q, 0, %d, func(sp Spec) templ.Component { return P_%s(sp.Go()) }},\n", p.Name, r, p.Name))
+		case n == 2:
+			sb.WriteString(fmt.Sprintf("\t{%q, 2, %d, func(sp Spec) templ.Component { p := sp.Pieces(2); return P_%s(p[0], p[1]) }},\n", p.Name, r, p.Name))
+		default:
+			sb.WriteString(fmt.Sprintf("\t{%q, 3, %d, func(sp Spec) templ.Component { p := sp.Pieces(3); return P_%s(p[0], p[1], p[2]) }},\n", p.Name, r, p.Name))
 		}
 	}
 	sb.WriteString(`}
@@ -129,6 +240,7 @@ type job struct {
 	I int    ` + "`json:\"i\"`" + `
 	V Spec   ` + "`json:\"v\"`" + `
 	K string ` + "`json:\"k\"`" + `
+	L int    ` + "`json:\"l\"`" + `
 }
 
 type out struct {
@@ -155,10 +267,14 @@ func main() {
 			// position (templ.JSONString) like in a full job, so that a failure
 			// that needs the earlier API call reproduces
 			if j.K != "" && j.K != registry[0].name && registry[0].f != nil {
-				_ = registry[0].f(j.V.Go()).Render(context.Background(), io.Discard)
+				_ = registry[0].f(j.V).Render(context.Background(), io.Discard)
 			}
 			for _, r := range registry {
-				if j.K != "" && j.K != r.name {
+				// a full job renders the positions that fit the value: cut strings go to
+				// the split positions with as many pieces, everything else to the others
+				// and only those whose sampling class the value reaches
+				fits := ((r.pieces == 0 && len(j.V.Cuts) == 0) || (r.pieces > 0 && len(j.V.Cuts) == r.pieces-1)) && r.rate <= j.L
+				if (j.K != "" && j.K != r.name) || (j.K == "" && !fits) {
 					o.O, o.E = append(o.O, ""), append(o.E, "")
 					continue
 				}
@@ -166,7 +282,7 @@ func main() {
 				msg := ""
 				if r.f == nil {
 					msg = "position not compiled"
-				} else if e := r.f(j.V.Go()).Render(context.Background(), &buf); e != nil {
+				} else if e := r.f(j.V).Render(context.Background(), &buf); e != nil {
 					msg = e.Error()
 				}
 				o.O, o.E = append(o.O, base64.StdEncoding.EncodeToString(buf.Bytes())), append(o.E, msg)
